@@ -79,7 +79,7 @@ Proof.
   now rewrite Hc.
 Qed.
 
-(* the framing Encode is proved to emit (Spec/Grammar.v header_ok, trailer_ok; wip/EncodeProofs.v encode_framing)
+(* the framing Encode is proved to emit (Spec/Grammar.v header_ok, trailer_ok; Proofs/EncodeProofs.v encode_framing)
    passes CheckIntegrity under every chunk schedule *)
 Theorem encode_integrity_ok : forall bs, is_bytes bs ->
   header_ok bs = true -> trailer_ok bs = true -> proto_ok (nth 1 bs 0) = true ->
